@@ -90,6 +90,7 @@ type Exec struct {
 	trace    bool
 	monitor  func()
 	nextID   int
+	locals   map[interface{}]interface{}
 	delayBound bool
 	held     map[interface{}]func()
 	diverged string
@@ -1114,4 +1115,22 @@ func Release(obj interface{}) {
 		return
 	}
 	delete(x.held, obj)
+}
+
+// ExecLocal returns the value stored under key for the active execution,
+// creating it with mk on first use (nil when no execution is active).
+func ExecLocal(key interface{}, mk func() interface{}) interface{} {
+	x := cur()
+	if x == nil {
+		return nil
+	}
+	if x.locals == nil {
+		x.locals = map[interface{}]interface{}{}
+	}
+	v, ok := x.locals[key]
+	if !ok {
+		v = mk()
+		x.locals[key] = v
+	}
+	return v
 }
